@@ -19,9 +19,12 @@ Put8(m, off, v) == [i \in 1..Len(m) |-> IF i = off + 1 THEN v ELSE m[i]]
 Bytes8 == {0, 1, 4, 5, 6, 8, 17, 43, 44, 50, 51, 58, 60, 69, 96, 129, 134, 135, 221, 255}
 (* structural mutation: the sampled packet of a raw-header record cut at every length (the sampler's snap length),
    re-encoded consistently (header length, XDR padding, record and sample lengths) *)
+(* a second tag in front of the first (stacked VLANs: service tag 0x88A8 or 0x8100 outside, customer tag inside) *)
+Stacked(pk, tpid) == [pk EXCEPT !.o = SubSeq(pk.o, 1, 12) \o tpid \o <<0, 5>> \o SubSeq(pk.o, 13, Len(pk.o))]
 CutPackets == <<Pkt(1, -1, FALSE, "tcp", Extra(0)), Pkt(1, 100, FALSE, "udp", Extra(1)), Pkt(1, 0, FALSE, "udp", Extra(1)), Pkt(1, 4095, TRUE, "tcp", Extra(2)),
                 Pkt(1, -1, TRUE, "icmp", Extra(3)), Pkt(11, 0, FALSE, "icmp", Extra(1)), Pkt(12, 0, TRUE, "udp", Extra(0)),
-                Pkt(11, 0, FALSE, "tcp", Extra(2))>>
+                Pkt(11, 0, FALSE, "tcp", Extra(2)),
+                Stacked(Pkt(1, 100, FALSE, "udp", Extra(1)), <<129, 0>>), Stacked(Pkt(1, 7, TRUE, "tcp", Extra(0)), <<136, 168>>)>>
 CutDgram(pi, k) == LET pk == CutPackets[pi]
                        rec == [RawRec(pk) EXCEPT !.hdr = SubSeq(pk.o, 1, k)] IN
                    Encode([agent |-> A4a, sub |-> W(1), seq |-> W(2), up |-> W(3), samples |-> <<FlowS(1, <<SwitchRecA, rec>>), Sample("c_vlan")>>])
